@@ -143,3 +143,41 @@ def _domain_apply_selection(n):
 
 
 DOMAIN = {F + 'get_mod_apply_selection_choice@until-incompatibility': _domain_apply_selection}
+
+
+# ------------------------------------------------------------------------------------- apply a connection choice (C11)
+CLASSES['ConnectionChoiceNode'] = {}
+CONN = 'Tuple[Ref,Optional[Ref]]'
+CONTRACTS[F + 'get_mod_apply_connection_choice'] = dict(
+    properties=['C11'],
+    types={'graph': 'Ref[NxGraph]', 'choice_node': 'Ref[ConnectionChoiceNode]', 'edges': f'List[{CONN}]'},
+    returns=f'Tuple[Set[{EDGE}],Set[Ref],Set[{EDGE}]]',
+    locals={'in_nodes': 'Set[Ref]', 'out_nodes': 'Set[Ref]', 'added_edges': f'Set[{EDGE}]', 'edge_key': f'Dict[{CONN},Int]',
+            'removed_nodes': 'Set[Ref]'},
+    defs={'is_src': (('x',), f"exists('e:{EDGE}', e in graph.edge_set and e[1] == choice_node and e[0] == x)"),
+          'is_tgt': (('x',), f"exists('e:{EDGE}', e in graph.edge_set and e[0] == choice_node and e[1] == x)")},
+    calls={'iter_in_edges': ITER_IN, 'iter_out_edges': ITER_OUT_A,
+           'get_edge': dict(params=['from_node', 'to_node', 'key', 'is_conn'], types={'to_node': 'Ref'}, returns=EDGE, modifies=[],
+                            requires=['is_conn'], pure_expr='(from_node, to_node, key, EdgeType.CONNECTS)'),
+           'choice_node.get_excluded_edges': dict(params=['g'], types={}, returns=f'List[{EDGE}]', modifies=[], assumed=True, receiver='choice_node', ensures=[]),
+           'choice_node.get_deriving_edges': dict(params=['g'], types={}, returns=f'List[{EDGE}]', modifies=[], assumed=True, receiver='choice_node', ensures=[])},
+    raises={'foreign-node': ('ValueError', "exists(i, 0, len(edges), not is_src(edges[i][0]) or (edges[i][1] is not None and not is_tgt(edges[i][1])))")},
+    loops={
+        'for edge in edges': [
+            dict(index='i0', invariant={
+                'checked-so-far': "forall(j, 0, i0, is_src(edges[j][0]) and (edges[j][1] is None or is_tgt(edges[j][1])))"}),
+            dict(index='i1', invariant={
+                # parallel connections between the same two connectors get the keys 0, 1, 2, ...
+                'next-key-is-the-count': f"forall('p:{CONN}', edge_key[p] == count(edges, p, i1))",
+                'added-are-numbered-connections': f"forall('a:{EDGE}', (a in added_edges) == (a[3] == EdgeType.CONNECTS and 0 <= a[2] and "
+                                                  f"a[2] < count(edges, (a[0], a[1]), i1)))"}),
+        ],
+    },
+    ensures={
+        'choice-node-removed': ('property', "forall('x:Ref', (x in result[1]) == (x == choice_node))"),
+        # statement of C11: the instance gets exactly the given connection edges, parallel ones as distinct keyed edges
+        'exactly-the-given-connections-added': ('property',
+            f"forall('a:{EDGE}', (a in result[2]) == (a[3] == EdgeType.CONNECTS and 0 <= a[2] and a[2] < count(edges, (a[0], a[1]), len(edges))))"),
+    },
+    modifies=[],
+)
